@@ -187,6 +187,7 @@ pub fn run_to_completion(
             intrs: vec![],
             max_instr,
             cycle_replies: false,
+            host_load: None,
             max_slices: 0,
         };
         match &plan_left {
